@@ -140,7 +140,8 @@ contract('message.Message.__init__', params=MSG_FIELDS, props=['C05', 'C06', 'C0
                       **{'iv-given': 'implies(iv is not None, result.iv == iv)',
                          'iv-fresh': 'implies(crypto is not None, result.iv is not None and '
                                      '(iv is not None or len(result.iv) == 16))',
-                         'iv-none': 'implies(crypto is None and iv is None, result.iv is None)'}))
+                         'iv-none': 'implies(crypto is None and iv is None, result.iv is None)',
+                         'C03:unprotected': 'not result.protected'}))
 
 contract('message.Message.parse', params={'data': Bytes, 'header_only': Bool, 'crypto': Opt(Rec('Crypto'))},
          returns=Rec('Message'), props=['C06', 'C17'],
